@@ -64,14 +64,21 @@ def words(b):
 def judge(prog, bases):
     """-> (fails or None if undecidable, info)"""
     results = []
-    for b in bases:
-        p = with_base(prog, b)
-        r = model.assemble(p)
-        if r.kind == "skip":
-            return None, {"why": r.why}
-        texts = progcheck.texts_of(p)
-        out, root = progcheck.run_pd(p, texts)
-        results.append((b, p, r, out, texts))
+    import os
+    from .. import driver
+    # the three assemblies run in one directory (same paths for the included files), one after the other in this process
+    first = with_base(prog, bases[0])
+    tree = dict(progcheck.texts_of(first))
+    tree.update(prog.get("blobs", {}))
+    with driver.Scratch(tree) as sc:
+        for b in bases:
+            p = with_base(prog, b)
+            r = model.assemble(p)
+            if r.kind == "skip":
+                return None, {"why": r.why}
+            texts = progcheck.texts_of(p)
+            out = driver.assemble([(os.path.join(sc.path, m), texts[m]) for m in p["mains"]], charset=p.get("charset", "bk"), timeout=10.0)
+            results.append((b, p, r, out, texts))
     fails = []
     for b, p, r, out, texts in results:
         res = progcheck.compare(r, out, texts)
